@@ -236,6 +236,7 @@ pub fn subtag_spaces(ctx: &Ctx) -> Vec<Box<dyn Space>> {
     spaces.push(Box::new(ByteStrings::new("E4.boundary4-6", BOUNDARY_BYTES.to_vec(), 4, if ctx.quick() { 5 } else { 6 })));
     spaces.push(Box::new(ByteStrings::new("E4.boundary7-9", vec![b'a', b'Z', b'0', b'9', b'-', 0, 0x80, b'@'], 6, 9)));
     spaces.push(Box::new(SubstSpace { bases: valid_subtags(), double: false }));
+    spaces.push(Box::new(ListSpace { label: "E4.special_words".into(), items: special_word_strings(), what: "every case mask of the special-cased words (und, true; root as control) with every prefix/suffix of total length <= 3 over {a,d,e,n,r,u,z,0,9}".into() }));
     if !ctx.quick() {
         spaces.push(Box::new(ByteStrings::new("E4.bytes=4", ByteStrings::all_bytes(), 4, 4)));
         spaces.push(Box::new(SubstSpace { bases: valid_subtags(), double: true }));
